@@ -72,8 +72,9 @@ build() {
 # seven-value digest, and the harness built against it (fpsim-weak). Hash collisions are legal events
 # that SipHash makes astronomically rare; code that takes a digest for the identity of a string (a memo
 # keyed by `hasher.finish()`) is wrong for colliding inputs, which exist, and only this makes them
-# reachable. Nothing is built when the library's source does not mention DefaultHasher.
-uses_default_hasher() { grep -rq "DefaultHasher" /repo/src 2>/dev/null; }
+# reachable. Hand-written hashes recognised by their well-known constants (scripts/weaken_hashes.py) are
+# reduced modulo 7 in the same copy. Nothing is built when the source has neither.
+uses_default_hasher() { grep -rq "DefaultHasher" /repo/src 2>/dev/null || python3 "$ROOT/scripts/weaken_hashes.py" --check /repo/src 2>/dev/null; }
 build_weak() {
     SH="$ROOT/target/shadow/lfp-weakhash"
     rm -rf "$SH"; mkdir -p "$SH"
@@ -88,6 +89,8 @@ build_weak() {
     for f in $(grep -rl "DefaultHasher" "$SH/src" --include='*.rs'); do
         grep -q "__verif_hash::DefaultHasher" "$f" || sed -i '1i #[allow(unused_imports)] use crate::__verif_hash::DefaultHasher;' "$f"
     done
+    # hand-written general-purpose hashes (FNV, CRC, djb2, ...: recognised by their constants): result modulo 7
+    python3 "$ROOT/scripts/weaken_hashes.py" --rewrite "$SH/src" >/dev/null 2>&1 || true
     cat > "$SH/src/__verif_hash.rs" <<'RS'
 //! Stand-in for std's DefaultHasher: same interface, a digest with seven values.
 #[derive(Clone, Debug, Default)]
